@@ -101,12 +101,32 @@ fn global_item() -> impl Strategy<Value = Vec<String>> {
     ]
 }
 
+/// Generated alias values: a real sub-command followed by words assembled from the quoting
+/// forms git's alias splitter knows - bare text, single-quoted and double-quoted sections
+/// (with backslashes, the other quote character and blanks inside), backslash escapes outside
+/// quotes, empty quotes. What the words must expand to is not modelled: real git is asked.
+fn alias_value() -> impl Strategy<Value = String> {
+    let frag = prop_oneof![
+        4 => pick_str(&["x1", "--short", "HEAD", "-n", "a.b", "k=v", "%h", "@{u}", "~1", "*.rs"]),
+        3 => pick_str(&["'a b'", "'TODO\\|FIXME'", "'C:\\tmp'", "'say \"hi\"'", "''", "'\\'", "'a\\ b'", "'--opt=1 2'", "'$HOME'"]),
+        3 => pick_str(&["\"a b\"", "\"q\\\"r\"", "\"back\\\\slash\"", "\"it's\"", "\"\"", "\"a\\ b\"", "\"$x\""]),
+        2 => pick_str(&["a\\ b", "\\'", "\\\"", "\\\\", "x\\y", "\\-n"]),
+    ];
+    let word = proptest::collection::vec(frag, 1..=3).prop_map(|f| f.concat());
+    (pick_str(&["rev-parse", "rev-parse --sq-quote", "log -n 1", "status", "grep -n -e", "ls-files", "-c core.abbrev=7 rev-parse", "config --get"]), proptest::collection::vec(word, 0..=3))
+        .prop_map(|(cmd, words)| if words.is_empty() { cmd } else { format!("{cmd} {}", words.join(" ")) })
+}
+
+fn pick_str(list: &'static [&'static str]) -> impl Strategy<Value = String> {
+    (0..list.len()).prop_map(move |i| list[i].to_string())
+}
+
 pub fn strategy() -> impl Strategy<Value = Case> {
     (
         proptest::collection::vec(global_item(), 0..4),
         proptest::option::weighted(0.9, pick(COMMANDS)),
         proptest::collection::vec(pick(CMD_ARGS), 0..4),
-        proptest::collection::vec((0usize..4, 0..ALIAS_VALUES.len()), 0..4),
+        proptest::collection::vec((0usize..4, prop_oneof![3 => (0..ALIAS_VALUES.len()).prop_map(|i| ALIAS_VALUES[i].to_string()), 2 => alias_value()]), 0..4),
         proptest::bool::weighted(0.03),
     )
         .prop_map(|(globals, cmd, cargs, aliases, end_to_end)| {
@@ -119,7 +139,7 @@ pub fn strategy() -> impl Strategy<Value = Case> {
             for (n, v) in aliases {
                 let name = format!("a{}", n);
                 if !al.iter().any(|(k, _)| *k == name) {
-                    al.push((name, ALIAS_VALUES[v].to_string()));
+                    al.push((name, v));
                 }
             }
             Case { args, aliases: al, end_to_end }
